@@ -39,6 +39,27 @@ def roots(d, out=None):
     return out
 
 
+def tying_helper(F, cond):
+    """the condition is a call of a private Workspace predicate that looks one stored object up by one of its arguments and compares an attribute of that object with
+    another argument (`fn is_stored(&self, namespace, name) -> bool { matches!(self.by_namespace.get(namespace), Some(d) if d.name() == name) }`): the same
+    lookup-and-compare idiom, extracted into a function"""
+    if not (isinstance(cond, tuple) and cond and cond[0] == "call" and isinstance(cond[1], str)):
+        return False
+    h = F.hir.get(cond[1])
+    if h is None or F.fns.get(cond[1], {}).get("vis") == "pub" or "Workspace::" not in cond[1]:
+        return False
+    params = [p.get("name") for p in h.get("params", [])]
+    lookups = find_hir(h["body"], lambda x: x.get("k") == "MethodCall" and x.get("method") in ("get", "get_key_value") and x.get("args"))
+    looked = {strip(l[0]["args"][0]).get("name") for l in lookups}
+    compared = set()
+    for x, _ in find_hir(h["body"], lambda x: x.get("k") == "Binary" and x.get("op") == "=="):
+        for side in (x["a"], x["b"]):
+            s_ = strip(side)
+            if s_.get("k") == "Path" and s_.get("res") == "local" and s_.get("name") in params:
+                compared.add(s_["name"])
+    return bool(looked & set(params)) and bool(compared - looked)
+
+
 def run(F, rep, tier):
     rep.explanation = ("Workspace keeps one list and two indexes of the stored models plus the evaluator map. Static rules over the HIR of every Workspace method: "
                        "the three indexes are mutated together on the same paths, all keys of one operation derive from one Definitions object, every mutating path "
@@ -128,7 +149,7 @@ def run(F, rep, tier):
                 # (look the model up by one key and compare its other attribute with the other key)
                 for m in ks:
                     for c in m[2]:
-                        if c[2] is True and rs <= roots(c[0]) and "get" in repr(c[0]):
+                        if c[2] is True and rs <= roots(c[0]) and ("get" in repr(c[0]) or tying_helper(F, c[0])):
                             tied = True
             if len(rs) == 1:
                 rep.ok(r2, key, "all keys derive from parameter %s" % sorted(rs))
